@@ -1,6 +1,6 @@
 (* C16 lemmas over Blocks/Model.v.  The per-opcode flag table is never unfolded: every statement holds
    for whatever table the translator regenerates. *)
-From Coq Require Import List NArith Arith Bool Lia Relations.
+From Coq Require Import List NArith Arith Bool Lia Relations FinFun.
 From PV Require Import Generated.C16_OpcodeFlags Blocks.Model.
 Import ListNotations.
 
@@ -30,6 +30,9 @@ Proof.
   - destruct (fin s) eqn:E; auto.
   - destruct (fin (run step fin d s)) eqn:E; auto.
 Qed.
+
+(* the loops run with binary fuel 2^63; never unfold it *)
+Local Opaque fuel_depth.
 
 (* ================================================================================================ *)
 (* A. opcodes.py: indices and next/prev links of _make_opcode_list / _add_jump_targets *)
@@ -768,7 +771,7 @@ Proof.
     - simpl. rewrite map_map. simpl. apply map_id. }
   destruct (p_err (run (pstep es) pfin fuel_depth s0)); try discriminate.
   destruct (pfin (run (pstep es) pfin fuel_depth s0)); try discriminate.
-  inversion H; subst. exact P.
+  injection H as E. subst pm. exact P.
 Qed.
 
 Lemma order_nodes_gen_spec : forall pick root rest es order,
@@ -792,7 +795,6 @@ Proof.
       + constructor.
       + tauto.
       + intros x [[]|[Hx|[]]]. subst. apply rt_refl.
-      + intros _. split; [right; left; reflexivity | intros x y []].
       + intros k [Hk|[]]. left. auto.
       + intros k [[]|[Hk|[]]]. subst. eapply assocN_In; eauto. }
   set (s := run (ostep pick pm es) ofin fuel_depth s0) in *.
@@ -812,7 +814,8 @@ Proof.
     + intros Hb. apply Ireach. auto.
     + intros Hb. apply clos_rt_rtn1 in Hb. induction Hb as [|y z Hyz Hb IH]; auto.
       destruct (Hc y z IH Hyz) as [Hz|[]]. apply Iseen. exact Hz.
-  - intros b Hb. apply in_rev in Hb. rewrite <- Hkeys. apply Inodes. auto.
+  - intros b Hb. apply in_rev in Hb.
+    assert (G : In b (map fst pm)) by (apply Inodes; auto). rewrite Hkeys in G. exact G.
   - apply pf_rev_positional with root. exact Ipf.
 Qed.
 
@@ -827,4 +830,269 @@ Qed.
 Lemma pick_min_ok : pick_ok pick_min.
 Proof.
   intros [|e q] Hne; [congruence|]. unfold pick_min, keys. apply in_map. apply pick_min_from_In.
+Qed.
+
+(* ================================================================================================ *)
+(* E. compute_order: what reaches order_nodes; the SEND-free case is split + connect + order *)
+
+Ltac inv_bind H :=
+  match type of H with
+  | bind ?x _ = Ok _ => let E := fresh "E" in destruct x eqn:E; cbn [bind] in H; [|discriminate]
+  end.
+
+Lemma compute_order_gen_inv : forall pick v ops r,
+  compute_order_gen pick v ops = Ok r ->
+  order_nodes_gen pick (map bid (r_blocks r)) (r_edges r) = Ok (r_order r) /\
+  (exists fm, first_op_map (r_blocks r) [] = Ok fm) /\
+  exists bs0 es0 su, split_bytecode v ops = Ok (bs0, es0) /\
+    (if v then remove_jmp_to_get_anext_and_merge (remove_jump_back_block ops bs0) es0
+     else Ok (mkSu bs0 es0 [] [])) = Ok su /\ r_blocks r = su_blocks su.
+Proof.
+  intros pick v ops r H. unfold compute_order_gen in H.
+  inv_bind H. destruct a as [bs0 es0]. inv_bind H. inv_bind H. inv_bind H. inv_bind H.
+  inversion H; subst r; simpl. split; [exact E3|]. split; [eauto|].
+  exists bs0, es0, a. auto.
+Qed.
+
+Lemma first_op_map_nonempty : forall bs acc fm, first_op_map bs acc = Ok fm -> Forall (fun b => code b <> []) bs.
+Proof.
+  induction bs as [|b bs IH]; intros acc fm H; simpl in H; [constructor|].
+  destruct (code b) eqn:E; [discriminate|]. constructor; [congruence | eauto].
+Qed.
+
+Lemma filter_all : forall A (f : A -> bool) l, (forall x, In x l -> f x = true) -> filter f l = l.
+Proof.
+  induction l as [|a l IH]; intros H; simpl; auto. rewrite (H a (or_introl eq_refl)). f_equal.
+  apply IH. intros; apply H; right; auto.
+Qed.
+
+Lemma delete_positions_nil : forall A (l : list A) pos, delete_positions [] l pos = l.
+Proof. induction l; intros; simpl; auto. f_equal. apply IHl. Qed.
+
+Definition plain_block (b : block) : Prop :=
+  forall o, In o (code b) -> is_op op_CLEANUP_THROW o = false /\ eaft o = None.
+
+Lemma plain_not_jump_back : forall ops b, plain_block b -> is_jump_back_block ops b = false.
+Proof.
+  intros ops b H. unfold is_jump_back_block. destruct (rev (code b)) as [|last [|snd rest]] eqn:E; auto.
+  assert (Hin : In snd (code b)). { apply in_rev. rewrite E. right. left. reflexivity. }
+  destruct (H snd Hin) as [Hc _]. rewrite Hc. rewrite andb_false_r. reflexivity.
+Qed.
+
+Lemma merge_list_plain : forall all bs pos, Forall plain_block bs -> merge_list_of all bs pos = Ok [].
+Proof.
+  induction bs as [|b bs IH]; intros pos H; simpl; auto.
+  inversion H as [|? ? Hb Hbs]; subst.
+  assert (G : forall l, (forall o, In o l -> eaft o = None) ->
+              map_res (fun o => match eaft o with
+                                | None => Ok None
+                                | Some e => match find_block_of e all 0 None with
+                                            | Some m => Ok (Some (pos, m))
+                                            | None => Err 4
+                                            end
+                                end) l = Ok (map (fun _ => None) l)).
+  { induction l as [|o l IHl]; intros Hl; simpl; auto.
+    rewrite (Hl o (or_introl eq_refl)). cbn [bind]. rewrite IHl by (intros; apply Hl; right; auto).
+    reflexivity. }
+  rewrite G by (intros o Ho; apply (Hb o Ho)). cbn [bind]. rewrite (IH (S pos) Hbs). cbn [bind].
+  f_equal. rewrite app_nil_r. induction (code b); simpl; auto.
+Qed.
+
+Lemma retarget_plain : forall bs rt, Forall (fun b => code b <> []) bs ->
+  fold_left (retarget_step []) bs (Ok rt) = Ok rt.
+Proof.
+  induction bs as [|b bs IH]; intros rt H; simpl; auto. inversion H; subst.
+  destruct (rev (code b)) eqn:E.
+  - exfalso. apply (f_equal (@rev _)) in E. rewrite rev_involutive in E. simpl in E. auto.
+  - destruct (eff_target rt i); simpl; apply IH; auto.
+Qed.
+
+Lemma surgery_plain : forall ops bs es,
+  Forall plain_block bs -> Forall (fun b => code b <> []) bs ->
+  remove_jmp_to_get_anext_and_merge (remove_jump_back_block ops bs) es = Ok (mkSu bs es [] []).
+Proof.
+  intros ops bs es Hp Hne.
+  assert (E : remove_jump_back_block ops bs = bs).
+  { unfold remove_jump_back_block. apply filter_all. intros b Hb. rewrite Forall_forall in Hp.
+    rewrite plain_not_jump_back; auto. }
+  rewrite E. unfold remove_jmp_to_get_anext_and_merge. rewrite merge_list_plain by exact Hp.
+  cbn [bind fold_left map m_blocks m_map m_edges m_processed]. rewrite delete_positions_nil.
+  rewrite retarget_plain by exact Hne. cbn [bind]. rewrite rev_involutive. reflexivity.
+Qed.
+
+Lemma plainb_spec : forall ops, plainb ops = true ->
+  forall o, In o ops -> is_op op_SEND o = false /\ is_op op_CLEANUP_THROW o = false /\ eaft o = None.
+Proof.
+  intros ops H o Ho. unfold plainb in H. rewrite forallb_forall in H. specialize (H o Ho).
+  apply andb_prop in H. destruct H as [H H3]. apply andb_prop in H. destruct H as [H1 H2].
+  apply negb_true_iff in H1, H2. destruct (eaft o); [discriminate|]. auto.
+Qed.
+
+Lemma compute_order_plain : forall pick v ops r,
+  wf_opsb ops = true -> plainb ops = true ->
+  compute_order_gen pick v ops = Ok r ->
+  split_bytecode v ops = Ok (r_blocks r, []) /\ r_retarget r = [].
+Proof.
+  intros pick v ops r Hwf Hpl H.
+  assert (Hns : nosend v ops).
+  { intros o Ho. destruct (plainb_spec _ Hpl o Ho) as [E _]. rewrite E. apply andb_false_r. }
+  pose proof H as H0. unfold compute_order_gen in H0.
+  inv_bind H0. destruct a as [bs0 es0].
+  destruct (split_plain_shape v ops bs0 es0 Hns E) as [_ Ees]. subst es0.
+  destruct (split_partition_lemma v ops bs0 [] (wf_last_next _ (wf_opsb_links _ Hwf)) E) as [Hcat Hok].
+  assert (Hp : Forall plain_block bs0).
+  { apply Forall_forall. intros b Hb o Ho.
+    assert (Hin : In o ops).
+    { rewrite <- Hcat. apply in_concat. exists (code b). split; auto. apply in_map. exact Hb. }
+    destruct (plainb_spec _ Hpl o Hin) as [_ [A B]]. auto. }
+  assert (Hne : Forall (fun b => code b <> []) bs0).
+  { eapply Forall_impl; [|exact Hok]. intros b [o [c [Ec _]]]. congruence. }
+  assert (Esu : (if v then remove_jmp_to_get_anext_and_merge (remove_jump_back_block ops bs0) []
+                 else Ok (mkSu bs0 [] [] [])) = Ok (mkSu bs0 [] [] [])).
+  { destruct v; auto. apply surgery_plain; auto. }
+  rewrite Esu in H0. cbn [bind su_blocks su_edges su_processed su_retarget] in H0.
+  inv_bind H0. inv_bind H0. inv_bind H0. inversion H0; subst r. simpl. auto.
+Qed.
+
+(* ================================================================================================ *)
+(* F. statements in the form used by Props/C16.v *)
+
+Lemma has_dup_not_NoDup : forall l, has_dup l = true -> ~ NoDup l.
+Proof.
+  induction l as [|x l IH]; simpl; intros H Hn; [discriminate|].
+  inversion Hn; subst. apply orb_prop in H. destruct H as [H|H].
+  - apply memN_In in H. contradiction.
+  - apply IH; auto.
+Qed.
+
+Lemma wf_links_idx_seq : forall ops pos n, wf_links ops pos n = true ->
+  map idx ops = map N.of_nat (seq pos (length ops)).
+Proof.
+  induction ops as [|o ops IH]; intros pos n H; simpl in *; auto.
+  apply andb_prop in H. destruct H as [H Ht]. apply andb_prop in H. destruct H as [H _].
+  apply andb_prop in H. destruct H as [H _]. apply N.eqb_eq in H. rewrite H. f_equal. eapply IH; eauto.
+Qed.
+
+Lemma wf_links_NoDup : forall ops, wf_links ops 0 (length ops) = true -> NoDup (map idx ops).
+Proof.
+  intros ops H. rewrite (wf_links_idx_seq _ _ _ H).
+  apply Injective_map_NoDup; [|apply seq_NoDup].
+  intros a b E. apply Nnat.Nat2N.inj. exact E.
+Qed.
+
+Lemma has_flag_opc : forall o o' m, opc o' = opc o -> has_flag o' m = has_flag o m.
+Proof. intros o o' m E. unfold has_flag. rewrite E. reflexivity. Qed.
+
+Lemma ajt_one_resolved : forall n all o2i o it o',
+  ajt_one n all o2i (o, it) = Ok o' -> has_known_jump o' = true -> exists t, target o' = Some t.
+Proof.
+  intros n all o2i o it o' H Hj. unfold ajt_one in H. destruct (ipreset it).
+  - destruct (index_of_item n0 all); [|discriminate]. inversion H; subst. simpl. eauto.
+  - destruct (has_known_jump o) eqn:Eo.
+    + destruct (iarg it); [|discriminate]. destruct (assocN n0 o2i); [|discriminate].
+      destruct (N.to_nat n1 <? n); [|discriminate]. inversion H; subst. simpl. eauto.
+    + inversion H; subst. congruence.
+Qed.
+
+Lemma indices_consistent_lemma : forall minor items ops,
+  build_ops minor items = Ok ops ->
+  forall i o, nth_error ops i = Some o ->
+    idx o = N.of_nat i /\
+    next o = (if S i <? length ops then Some (N.of_nat (S i)) else None) /\
+    prev o = (match i with O => None | S p => Some (N.of_nat p) end) /\
+    (forall t, target o = Some t -> N.to_nat t < length ops) /\
+    (has_known_jump o = true -> exists t, target o = Some t).
+Proof.
+  intros minor items ops H i o Hi.
+  destruct (build_ops_wf _ _ _ H) as [Hl Ht].
+  destruct (wf_links_spec _ _ _ Hl i o Hi) as [A [B C]]. simpl in A, B, C.
+  split; [exact A|]. split; [exact B|]. split; [exact C|]. split.
+  - intros t E. eapply Ht; eauto. eapply nth_error_In; eauto.
+  - unfold build_ops in H. destruct (mol_loop minor items [] [] 0%N) as [all o2i].
+    destruct (map_res_nth _ _ _ _ _ H i o Hi) as [[o0 it] [_ Hf]].
+    eapply ajt_one_resolved; eauto.
+Qed.
+
+Definition block_wf (b : block) : Prop := exists o c, code b = o :: c /\ bid b = idx o.
+
+Lemma split_partition_full : forall v ops bs es,
+  wf_opsb ops = true -> split_bytecode v ops = Ok (bs, es) ->
+  concat (map code bs) = ops /\ Forall block_wf bs /\ NoDup (block_instrs bs).
+Proof.
+  intros v ops bs es Hwf H. pose proof (wf_opsb_links _ Hwf) as Hl.
+  destruct (split_partition_lemma v ops bs es (wf_last_next _ Hl) H) as [A B].
+  split; [exact A|]. split; [exact B|]. unfold block_instrs. rewrite A. apply wf_links_NoDup. exact Hl.
+Qed.
+
+Lemma plain_final_lemma : forall pick v ops r,
+  wf_opsb ops = true -> plainb ops = true -> compute_order_gen pick v ops = Ok r ->
+  concat (map code (r_blocks r)) = ops /\ Forall block_wf (r_blocks r) /\
+  NoDup (block_instrs (r_blocks r)) /\ r_retarget r = [].
+Proof.
+  intros pick v ops r Hwf Hpl H. destruct (compute_order_plain _ _ _ _ Hwf Hpl H) as [Hs Hr].
+  destruct (split_partition_full _ _ _ _ Hwf Hs) as [A [B C]]. auto.
+Qed.
+
+Lemma plain_targets_lemma : forall pick v ops r,
+  wf_opsb ops = true -> anext_okb ops = true -> plainb ops = true ->
+  compute_order_gen pick v ops = Ok r ->
+  forall o t, In o ops -> target o = Some t ->
+  exists b ot c, In b (r_blocks r) /\ nth_error ops (N.to_nat t) = Some ot /\
+                 code b = ot :: c /\ bid b = t /\ idx ot = t.
+Proof.
+  intros pick v ops r Hwf Han Hpl H. destruct (compute_order_plain _ _ _ _ Hwf Hpl H) as [Hs _].
+  eapply targets_start_blocks_lemma; eauto.
+  intros o Ho. destruct (plainb_spec _ Hpl o Ho) as [E _]. rewrite E. apply andb_false_r.
+Qed.
+
+Lemma blocks_nonempty_lemma : forall pick v ops r,
+  compute_order_gen pick v ops = Ok r -> Forall (fun b => code b <> []) (r_blocks r).
+Proof.
+  intros pick v ops r H. destruct (compute_order_gen_inv _ _ _ _ H) as [_ [[fm Hfm] _]].
+  eapply first_op_map_nonempty; eauto.
+Qed.
+
+Lemma order_lemma : forall pick v ops r,
+  pick_ok pick -> compute_order_gen pick v ops = Ok r ->
+  match r_blocks r with
+  | [] => r_order r = []
+  | b0 :: _ =>
+    NoDup (r_order r) /\
+    (exists tl, r_order r = bid b0 :: tl) /\
+    (forall b, In b (r_order r) <-> reach (r_edges r) (bid b0) b) /\
+    (forall b, In b (r_order r) -> In b (map bid (r_blocks r))) /\
+    (forall l1 b l2, r_order r = l1 ++ b :: l2 -> l1 <> [] ->
+                     exists p, In p l1 /\ In (p, b) (r_edges r))
+  end.
+Proof.
+  intros pick v ops r Hp H. destruct (compute_order_gen_inv _ _ _ _ H) as [Ho _].
+  destruct (r_blocks r) as [|b0 rest]; simpl in Ho.
+  - inversion Ho. reflexivity.
+  - eapply order_nodes_gen_spec; eauto.
+Qed.
+
+Lemma order_complete_nodup_lemma : forall (pick : queue -> N) (v312 : bool) (ops : list instr) (r : ordered),
+  pick_ok pick -> compute_order_gen pick v312 ops = Ok r ->
+  match r_blocks r with
+  | [] => r_order r = []
+  | b0 :: _ =>
+    NoDup (r_order r) /\
+    (exists tl, r_order r = bid b0 :: tl) /\
+    (forall b, In b (r_order r) <-> clos_refl_trans N (fun x y => In (x, y) (r_edges r)) (bid b0) b) /\
+    (forall b, In b (r_order r) -> In b (map bid (r_blocks r)))
+  end.
+Proof.
+  intros pick v ops r Hp H. pose proof (order_lemma pick v ops r Hp H) as L.
+  destruct (r_blocks r); [exact L|]. destruct L as [A [B [C [D _]]]]. auto.
+Qed.
+
+Lemma order_pred_first_lemma : forall (pick : queue -> N) (v312 : bool) (ops : list instr) (r : ordered),
+  pick_ok pick -> compute_order_gen pick v312 ops = Ok r ->
+  forall l1 b l2, r_order r = l1 ++ b :: l2 -> l1 <> [] ->
+  exists p, In p l1 /\ In (p, b) (r_edges r).
+Proof.
+  intros pick v ops r Hp H. pose proof (order_lemma pick v ops r Hp H) as L.
+  destruct (r_blocks r) eqn:E.
+  - intros l1 b l2 Ho. rewrite L in Ho. destruct l1; discriminate.
+  - destruct L as [_ [_ [_ [_ L]]]]. exact L.
 Qed.
